@@ -19,7 +19,7 @@ import (
 func init() {
 	Register(&Prop{
 		ID: "C07", NoShrink: true,
-		Rule: "srv: requests with Content-Length / chunked bodies of sizes around MaxRequestBodySize L (L-1, L, L+1, 2L, chunk splits) on a real connection; cli: Response.ReadLimitBody with fixed / chunked / identity bodies around L; " +
+		Rule: "srv: requests with Content-Length / chunked / fixed-length multipart (pre-parsed, not pre-parsed, with Content-Encoding) bodies of sizes around MaxRequestBodySize L (L-1, L, L+1, 2L, chunk splits) on a real connection; cli: Response.ReadLimitBody with fixed / chunked / identity bodies around L; " +
 			"gz: Body*WithLimit on gzip bodies whose inflated size is around L (incl. bombs); mp: MultipartFormWithLimit; head: request heads around ReadBufferSize; " +
 			"non-trivial = body size within [L-2, 2L]; distinct = distinct input",
 		Parallel: true,
@@ -28,7 +28,27 @@ func init() {
 			switch kind {
 			case "srv":
 				L, size, chunked := num(0), num(1), string(a[2]) == "ch"
+				// "mp" / "mpnp": a fixed-length multipart/form-data body of exactly `size` bytes (pre-parsed by the server
+				// unless DisablePreParseMultipartForm); "mpgz": the same with a Content-Encoding (never pre-parsed)
+				mpMode := strings.HasPrefix(string(a[2]), "mp")
 				body := bytes.Repeat([]byte("b"), size)
+				ctype := ""
+				if mpMode {
+					const bnd = "verifboundary"
+					mk := func(n int) []byte {
+						return []byte("--" + bnd + "\r\nContent-Disposition: form-data; name=\"f\"\r\n\r\n" + strings.Repeat("m", n) + "\r\n--" + bnd + "--\r\n")
+					}
+					over := len(mk(0))
+					if size < over {
+						size = over
+						a[1] = N(size)
+					}
+					body = mk(size - over)
+					ctype = "Content-Type: multipart/form-data; boundary=" + bnd + "\r\n"
+					if string(a[2]) == "mpgz" {
+						ctype += "Content-Encoding: identity\r\n"
+					}
+				}
 				var stream bytes.Buffer
 				var sizes [][]byte
 				if chunked {
@@ -43,15 +63,18 @@ func init() {
 					}
 					stream.WriteString("0\r\n\r\n")
 				} else {
-					fmt.Fprintf(&stream, "POST /big HTTP/1.1\r\nHost: h\r\nContent-Length: %d\r\n\r\n%s", size, body)
+					fmt.Fprintf(&stream, "POST /big HTTP/1.1\r\nHost: h\r\n%sContent-Length: %d\r\n\r\n%s", ctype, size, body)
 				}
 				stream.WriteString("GET /sentinel HTTP/1.1\r\nHost: h\r\n\r\n")
-				res := runConn(connCfg{MaxBody: L}, [][]byte{stream.Bytes()})
+				res := runConn(connCfg{MaxBody: L, NoPreParse: string(a[2]) == "mpnp"}, [][]byte{stream.Bytes()})
 				codes, _ := wireResponses(res.Trace.Out)
 				dispatched := len(res.Dispatches) > 0 && string(res.Dispatches[0].URI) == "/big"
 				bodyLen := -1
 				if dispatched {
 					bodyLen = len(res.Dispatches[0].Body)
+					if mpMode && bodyLen > 0 {
+						bodyLen = size // a pre-parsed form is re-marshalled by Body(): only its presence is compared
+					}
 				}
 				impl := "ok " + strconv.Itoa(bodyLen)
 				if !dispatched {
@@ -63,9 +86,9 @@ func init() {
 				} else {
 					line = Line("limfixed", a[0], a[1])
 				}
-				return &Case{Lines: []string{line}, Impl: impl, Nontrivial: size >= L-2 && size <= 2*L, Tags: []string{"srv", "srv-" + strings.Fields(impl)[0]},
+				return &Case{Lines: []string{line}, Impl: impl, Nontrivial: size >= L-2 && size <= 2*L, Tags: []string{"srv", "srv-" + strings.Fields(impl)[0], "srv-framing-" + string(a[2])},
 					Judge: func(r []string) Verdict {
-						desc := fmt.Sprintf("MaxRequestBodySize=%d body=%d chunked=%v: dispatched=%v handlerBody=%d responses=%v closed=%v", L, size, chunked, dispatched, bodyLen, codes, res.Trace.Closed)
+						desc := fmt.Sprintf("MaxRequestBodySize=%d body=%d framing=%s chunked=%v: dispatched=%v handlerBody=%d responses=%v closed=%v", L, size, a[2], chunked, dispatched, bodyLen, codes, res.Trace.Closed)
 						if size > L {
 							if dispatched {
 								return Verdict{VSpec, "oversized-body-dispatched", desc}
@@ -231,7 +254,7 @@ func init() {
 				step := 1 + r.Intn(max(1, L))
 				switch r.Intn(6) {
 				case 0, 1:
-					emit("srv", N(L), N(size), B(r.Pick([]string{"cl", "ch"})), N(step))
+					emit("srv", N(L), N(size), B(r.Pick([]string{"cl", "ch", "cl", "ch", "mp", "mpnp", "mpgz"})), N(step))
 				case 2, 3:
 					emit("cli", N(L), N(size), B(r.Pick([]string{"cl", "ch", "id"})), N(step))
 				case 4:
